@@ -383,6 +383,8 @@ def run(pid, tier):
             states += r["distinct"]
             trans += r["generated"]
             if r["rc"] == -9:
+                if C.within_budget(r, tier):
+                    continue
                 raise C.Inconclusive("exhaustive TLC run timed out")
             inv, dead = C.tlc_violations(r["out"])
             if inv or "is violated" in r["out"]:
@@ -401,7 +403,7 @@ def run(pid, tier):
                    traces_validated_against_impl=len(outs) - len(set(v[1] for v in mine)),
                    samples=[{"history_steps": sample}, {"history_input": hists[0]["steps"][:4]}],
                    exhaustive=bool(exh) and all("No error has been found" in r["out"] for r in exh),
-                   exhaustive_configs=[dict(name=r.get("name"), distinct=r["distinct"], generated=r["generated"], wall=round(r["wall"], 1)) for r in exh],
+                   exhaustive_configs=[dict(name=r.get("name"), distinct=r["distinct"], generated=r["generated"], wall=round(r["wall"], 1), complete=not r.get("incomplete", False)) for r in exh],
                    histories_random=len(hists) - len(walks), histories_from_tlc=len(walks),
                    events_validated=vstats["events"], trace_states=vstats["states"], events_by_kind=dict(opcount),
                    checks=PROP_CHECKS[pid], other_check_failures=len(others), known_findings_seen=sorted(seen_known))
